@@ -1445,16 +1445,29 @@ class GroupBy:
 
         group_index = self._result_index[self._labels_argsort]
         if mask is not None:
-            group_index = group_index[[len(arr) > 0 for arr in array_splits[0]]]
+            non_empty = np.array([len(arr) > 0 for arr in array_splits[0]], dtype=bool)
         else:
-            group_index = group_index[group_counts > 0]
+            non_empty = group_counts > 0
+        group_index = group_index[non_empty]
 
-        if np.ndim(results_per_value[0][0]) == 0:
+        if len(results) == 0 or np.ndim(results_per_value[0][0]) == 0:
             # safe to assume it's a scalar value function
             arrays = map(np.array, results_per_value)
             if transform:
                 self._unify_group_key_chunks(keep_chunked=False)
-                arrays = [arr[self.group_ikey] for arr in arrays]
+                # results exist for the non-empty groups only, in label order: put them
+                # back at their codes; null keys and empty groups get the last (null) slot
+                codes = np.arange(self.ngroups)[self._labels_argsort][non_empty]
+                complete = len(codes) == self.ngroups and not self.has_null_keys
+                broadcast = []
+                for arr in arrays:
+                    if complete:
+                        full = np.empty(self.ngroups, dtype=arr.dtype)
+                    else:
+                        full = np.full(self.ngroups + 1, np.nan)
+                    full[codes] = arr
+                    broadcast.append(full[self.group_ikey])
+                arrays = broadcast
                 index = (
                     common_index
                     if common_index is not None
